@@ -7,6 +7,7 @@ import BufrModel.Spec.Frame
 import BufrModel.Gen.PyConstants
 import BufrModel.Gen.PyDecoder
 import BufrModel.Lemmas.StreamSrc
+import BufrModel.Lemmas.SectionsSrc
 namespace Bufr
 open PyGen.constants
 
@@ -60,3 +61,30 @@ example : ∃ (env : Env) (s : Bytes) (v : Locals) (e : Py.Exc), Inv s false tru
    ⟨rfl, rfl, rfl, rfl, rfl, rfl⟩, by decide, rfl, rfl⟩
 
 end Bufr.Stream
+
+namespace Bufr
+open PyGen.decoder PyGen.decoder.process_section_finish
+
+/-- C12 (a damaged section length gives a LIBRARY error): in the source as translated on every check, a section whose
+    declared length is below the bits already read ends with `raise PyBufrKitError` (and a reader that runs out of bits
+    while the padding is skipped fails with the reader's error class: `C04_src_finish_section_eq`) -/
+theorem C12_src_section_overrun_is_library_error (env : Env) (errOf : Py.Exc → Err) (bits : Py.Obj → Bits) (pos : Py.Obj → Nat)
+    (hr : ReaderSpec env errOf bits pos) (br : Py.Obj) (sec : Section) (start used d : Nat) (i : Int)
+    (hc : env.section_contains sec "section_length".toList = .ok true)
+    (hst : env.section_get_metadata sec BITPOS_START = .ok (start : Int))
+    (hix : env.section_get_metadata sec "index".toList = .ok i)
+    (hv : sec.section_length_value = (d : Int)) (hpos : pos br = start + used) (hover : d * 8 < used) :
+    (process_section_finish env br sec).2 = .error (.raised "PyBufrKitError") := by
+  have hgp := hr.get_pos
+  have hix' : env.section_get_metadata sec ['i', 'n', 'd', 'e', 'x'] = .ok i := hix
+  have hc' : env.section_contains sec ['s', 'e', 'c', 't', 'i', 'o', 'n', '_', 'l', 'e', 'n', 'g', 't', 'h'] = .ok true := hc
+  have h8 : NBITS_PER_BYTE = 8 := rfl
+  have hnr : ((pos br : Int) - (start : Int)) = (used : Int) := by rw [hpos]; omega
+  have hng : ¬ ((0 : Int) < (d : Int) * 8 - (used : Int)) := by omega
+  have hlt : (d : Int) * 8 - (used : Int) < 0 := by omega
+  simp only [process_section_finish, Py.Flow.bind, Py.Flow.eval, Py.Flow.finish, hc', hgp, hst, hnr, hv, h8, hng, hlt, hix',
+    bind, Except.bind, pure, Except.pure, if_true, if_false, decide_true, decide_false, Int.ofNat_eq_natCast,
+    Int.natCast_zero, Bool.false_eq_true]
+
+end Bufr
+
